@@ -12,6 +12,9 @@ SCAN_DIR = os.path.join(ROOT, "lockscan")
 SCAN_TARGET = os.path.join(CACHE, "target-lockscan")
 THEOREMS = ["deltio_lock_edges_ranked", "deltio_no_await_under_lock", "deltio_all_sites_analysed",
             "deltio_no_lock_deadlock", "deltio_suspension_points_as_modelled"]
+# Gen/PushCheck.v (C14): which way the real push pass listens to the deletion signal, read off the suspension points
+# the scanner lists for push_loop.rs::pull_and_dispatch_messages; instances of Proofs/PushPassP.v
+PUSH_THEOREMS = ["deltio_push_pass_raced_whole", "deltio_push_no_post_after_delete", "deltio_push_delete_stops"]
 
 
 def build_lockscan():
@@ -22,17 +25,25 @@ def build_lockscan():
 
 
 def lock_gate():
+    return gen_gate("LockCheck", THEOREMS, 2)
+
+
+def push_gate():
+    return gen_gate("PushCheck", PUSH_THEOREMS, 3)
+
+
+def gen_gate(check, theorems, closed):
     """-> (ok, detail).  detail: theorems {name: {...}}, edges, sites, failed (name of the first theorem that no
-    longer checks), output."""
+    longer checks), output.  `check`: the hand-written file of coq/Gen compiled against the LockEdges.v of this run."""
     repo = ALT_REPO or REPO
-    detail = {"theorems": {}, "scanner": "lockscan (syn 2, /verif/lockscan)", "source": repo}
+    detail = {"theorems": {}, "scanner": "lockscan (syn 2, /verif/lockscan)", "source": repo, "check_file": check}
     okb, outb = build_lockscan()
     if not okb:
         detail["output"] = outb[-2000:]
         detail["failed"] = "lockscan does not build"
         return False, detail
-    wd = workdir("lockgate")
-    with Lock("lockgate-alt" if ALT_REPO else "lockgate"):
+    wd = workdir("lockgate" if check == "LockCheck" else "gate-" + check)
+    with Lock(("lockgate-alt" if ALT_REPO else "lockgate") + ("" if check == "LockCheck" else "-" + check)):
         v, js = os.path.join(wd, "LockEdges.v"), os.path.join(wd, "lockedges.json")
         for f in glob_all(wd):
             os.remove(f)
@@ -52,12 +63,12 @@ def lock_gate():
             strip = lambda s: re.sub(r"\(\*.*?\*\)", "", s, flags=re.S)
             detail["same_as_committed_snapshot"] = strip(open(committed).read()) == strip(open(v).read())
         # LockCheck.v as committed, importing the file generated just now
-        src = open(os.path.join(COQ, "Gen", "LockCheck.v")).read()
+        src = open(os.path.join(COQ, "Gen", check + ".v")).read()
         src2 = src.replace("From Deltio Require Import Gen.LockEdges.", "From DeltioRun Require Import LockEdges.")
         if src2 == src:
-            detail["failed"] = "Gen/LockCheck.v does not import Gen.LockEdges"
+            detail["failed"] = "Gen/%s.v does not import Gen.LockEdges" % check
             return False, detail
-        chk = os.path.join(wd, "LockCheck.v")
+        chk = os.path.join(wd, check + ".v")
         open(chk, "w").write(src2)
         okc, outc = build_coq()
         if not okc:
@@ -72,22 +83,22 @@ def lock_gate():
     ok = p1.returncode == 0 and p2 is not None and p2.returncode == 0
     failed_line = None
     if not ok:
-        m = re.search(r'LockCheck\.v", line (\d+)', out)
+        m = re.search(r'%s\.v", line (\d+)' % check, out)
         if m:
             failed_line = int(m.group(1))
         detail["output"] = out[-1500:]
     # which theorems were reached
     lines = src2.split("\n")
     first_failed = None
-    for name in THEOREMS:
+    for name in theorems:
         ln = next((i + 1 for i, l in enumerate(lines) if re.match(r"\s*Theorem\s+%s\b" % name, l)), None)
         reached = ok or (failed_line is not None and ln is not None and ln_end(lines, ln) < failed_line)
-        st = {"stated": ln is not None, "file": "Gen/LockCheck.v (compiled against the LockEdges.v generated on this run)",
+        st = {"stated": ln is not None, "file": "Gen/%s.v (compiled against the LockEdges.v generated on this run)" % check,
               "ok": bool(reached), "assumptions": "closed" if reached else None}
         if not reached and first_failed is None:
             first_failed = name
         detail["theorems"][name] = st
-    if ok and out.count("Closed under the global context") < 2:
+    if ok and out.count("Closed under the global context") < closed:
         ok = False
         first_failed = first_failed or "Print Assumptions: not closed"
         detail["output"] = out[-1500:]
